@@ -275,6 +275,8 @@ class Sym:
         self.stack = [fn.name]
         self.follow = set(follow)         # public helpers a row wants followed as well
         self.inlined: list[str] = []
+        self.followed: set[str] = set()
+        self.visited: set[int] = set()
         self.block(body_no_doc(fn), {}, [], ())
 
     # ---- expressions
@@ -289,6 +291,24 @@ class Sym:
 
     def emit(self, kind, node, conds, ctx, orig=None):
         self.events.append(Ev(kind, node, conds, ctx, orig))
+        # a private helper called somewhere inside an expression (a comprehension element, an argument): its
+        # statements are read too, parameters unbound, so that rows looking for a kind of statement see them
+        if kind in ("continue", "break", "global"):
+            return
+        for c in [n for n in ast.walk(node) if isinstance(n, ast.Call)]:
+            hit = self.callee(c)
+            if hit is None or hit[2].name in self.stack or len(self.stack) >= self.MAX_DEPTH or id(hit[2]) in self.visited:
+                continue
+            mod, cls, fn, _ = hit
+            self.visited.add(id(fn))
+            self.followed.add(fn.name)
+            self.frames.append(_Frame(mod, cls, fn))
+            self.stack.append(fn.name)
+            try:
+                self.block(body_no_doc(fn), {}, list(conds), tuple(ctx) + (("called", fn.name),))
+            finally:
+                self.frames.pop()
+                self.stack.pop()
 
     def value(self, e, env, conds, ctx):
         s = self.subst(e, env)
@@ -395,6 +415,7 @@ class Sym:
         # a guard of the helper whose branch raised is a guard of the caller too
         conds.extend(c for c in c2[base:] if c[2] == "raise")
         self.inlined.append(fn.name)
+        self.followed.add(fn.name)
         return out if want_value else True
 
     # ---- statements
@@ -424,9 +445,13 @@ class Sym:
         if isinstance(st, (ast.Assign, ast.AnnAssign)):
             targets = [st.target] if isinstance(st, ast.AnnAssign) else st.targets
             val = self.value(st.value, env, conds, ctx)
+            fresh = isinstance(val, (ast.Dict, ast.List, ast.Set)) and not (val.keys if isinstance(val, ast.Dict) else val.elts) \
+                or isinstance(val, ast.Call) and ast.unparse(val.func) in ("dict", "list", "set", "defaultdict", "OrderedDict",
+                                                                           "collections.defaultdict", "collections.OrderedDict")
             for t in targets:
                 if isinstance(t, ast.Name):
-                    env[t.id] = val
+                    # an (empty) container that is filled later is an object, not a value: it keeps its name
+                    env[t.id] = ast.Name(id=t.id, ctx=ast.Load()) if fresh else val
                 else:
                     for nm in _stored_names([t]):
                         env[nm] = _opaque(nm)
@@ -776,15 +801,17 @@ def writer_behaviour(sym: Sym) -> tuple[str, bool]:
     fn = sym.frames[0].fn
     refusals, first_write = [], None
     for i, ev in enumerate(sym.events):
-        pos = [(txt, pol, node) for txt, pol, node in cond_literals(ev.conds, False)]
+        # deciding atoms: enclosing tests, and earlier exits other than a raise (a raise before the test writes nothing)
+        pos = [x for t, pol, g in ev.conds if g != "raise" or _has_exists(t) for x in literals(t, pol)]
         ex = [x for x in pos if _has_exists(x[2])]
-        if ev.kind in ("raise", "return", "ireturn") and ex:
+        if ev.kind in ("raise", "return") and any(pol and isinstance(n, ast.Call) and isinstance(n.func, ast.Attribute)
+                                                  and n.func.attr == "exists" for _, pol, n in ex):
             refusals.append((i, ev, pos, ex))
         elif ev.kind in ("expr", "assign", "with", "return", "ireturn") and first_write is None \
                 and any(isinstance(n, ast.Call) and isinstance(n.func, ast.Attribute) and n.func.attr in WRITE_ATTRS
                         for n in ast.walk(ev.node)):
             first_write = (i, ev)
-    if any(_has_exists(t) for ev in sym.events for t, _, g in ev.conds if g) and not refusals:
+    if any(_has_exists(t) for ev in sym.events for t, _, _ in ev.conds) and not refusals:
         fail(fn, "an existence test that is not a refusal")
     if len(refusals) > 1:
         fail(fn, "more than one existence test")
@@ -799,9 +826,6 @@ def writer_behaviour(sym: Sym) -> tuple[str, bool]:
             fail(ev.orig, f"the refusal of an existing target also depends on {rest}")
         if ev.in_ctx("loop") or ev.in_ctx("except"):
             fail(ev.orig, "existence test inside a loop / handler")
-        # the write must not be reachable when the test was skipped by an earlier early exit other than a raise
-        if any(g in ("return", "mixed") and not _has_exists(t) for t, _, g in ev.conds):
-            pass                                            # an early return before the test writes nothing (checked above)
         if ev.kind == "raise":
             if "FileExistsError" not in _exc_names(ev.node.exc) if ev.node.exc is not None else True:
                 fail(ev.orig, "existence test must raise FileExistsError")
@@ -967,7 +991,7 @@ def _self_attrs(sym: Sym) -> set[str]:
     for ev in sym.events:
         for root in [ev.node] + [t for t, _, _ in ev.conds]:
             for n in ast.walk(root):
-                if isinstance(n, ast.Attribute) and _is_name(n.value, "self"):
+                if isinstance(n, ast.Attribute) and _is_name(n.value, "self") and n.attr not in sym.followed:
                     out.add(n.attr)
                 if isinstance(n, ast.Call) and isinstance(n.func, ast.Name) and n.func.id in ("getattr", "setattr", "vars"):
                     out.add("<" + n.func.id + ">")
@@ -1066,11 +1090,11 @@ def _old_store(sym: Sym) -> bool:
             accs.add(ev.node.targets[0].id)
     stores = []
     for ev in sym.events:
-        o = ev.orig
-        if isinstance(o, ast.Assign) and isinstance(o.targets[0], ast.Subscript) and isinstance(o.targets[0].value, ast.Name) \
+        o = ev.node
+        if ev.kind == "assign" and isinstance(o.targets[0], ast.Subscript) and isinstance(o.targets[0].value, ast.Name) \
                 and o.targets[0].value.id in accs:
             stores.append(("replace", ev))
-        elif isinstance(o, ast.Expr) and isinstance(o.value, ast.Call) and isinstance(o.value.func, ast.Attribute) \
+        elif ev.kind == "expr" and isinstance(o.value, ast.Call) and isinstance(o.value.func, ast.Attribute) \
                 and o.value.func.attr == "update":
             base = o.value.func.value
             if isinstance(base, ast.Call) and isinstance(base.func, ast.Attribute) and base.func.attr == "setdefault" \
@@ -1079,10 +1103,10 @@ def _old_store(sym: Sym) -> bool:
                 stores.append(("merge", ev))
             elif isinstance(base, ast.Name) and base.id in accs:
                 stores.append(("replace", ev))           # acc.update({k: v}) replaces the entry of k
-            elif isinstance(base, ast.Subscript) and isinstance(base.value, ast.Name) and base.value.id in accs:
-                fail(o, "unknown store into the result mapping")
-        elif isinstance(o, (ast.AugAssign,)) and any(isinstance(n, ast.Name) and n.id in accs for n in ast.walk(o.target)):
-            fail(o, "unknown store into the result mapping")
+            elif any(isinstance(n, ast.Name) and n.id in accs for n in ast.walk(base)):
+                fail(ev.orig, "unknown store into the result mapping")
+        elif ev.kind == "augstore" and any(isinstance(n, ast.Name) and n.id in accs for n in ast.walk(o.target)):
+            fail(ev.orig, "unknown store into the result mapping")
     stores = [(k, ev) for k, ev in stores if ev.in_ctx("loop")]
     if len(stores) != 1:
         fail(fn, f"Outputs.save_to_file: expected one store into the result mapping, found {len(stores)}")
